@@ -382,7 +382,7 @@ def run(ctx: Ctx) -> Outcome:
     per_slice: dict[str, list[int]] = {}
     for i, op in enumerate(ops):
         per_slice.setdefault(op["slice"], []).append(i)
-    quota = 24 if ctx.quick else 96
+    quota = 24 if ctx.quick else 240
     picked = sorted(i for idxs in per_slice.values() for i in common.sample(rng, idxs, quota))
     batches: list[list[int]] = []
     for dialect in ("3.0", "2.0"):
